@@ -867,17 +867,51 @@ Proof.
   - exact IH.
 Qed.
 
+(** a negative DiTi index is a ValueError (checked first; /repo commit 26768d9, finding F21); otherwise the
+    call is accepted only at the start of the worklist or directly after a break record *)
 Lemma rc_set_diti w i :
-  (w_recs w = [] -> set_diti w i = (emit w [RS i], None)) /\
-  (forall l r, w_recs w = (l ++ [r])%list -> is_break_like r = true ->
+  ((i < 0)%Z -> set_diti w i = (w, Some EReject)) /\
+  ((0 <= i)%Z -> w_recs w = [] -> set_diti w i = (emit w [RS i], None)) /\
+  (forall l r, (0 <= i)%Z -> w_recs w = (l ++ [r])%list -> is_break_like r = true ->
      set_diti w i = (emit w [RS i], None)) /\
-  (forall l r, w_recs w = (l ++ [r])%list -> is_break_like r = false ->
+  (forall l r, (0 <= i)%Z -> w_recs w = (l ++ [r])%list -> is_break_like r = false ->
      set_diti w i = (w, Some EInvalidOp)).
 Proof.
-  unfold set_diti. split; [|split].
-  - intro H. rewrite H. reflexivity.
-  - intros l r H Hb. rewrite H, rc_last_opt_snoc, Hb. reflexivity.
-  - intros l r H Hb. rewrite H, rc_last_opt_snoc, Hb. reflexivity.
+  unfold set_diti. split; [|split; [|split]].
+  - intro Hi. apply Z.ltb_lt in Hi. rewrite Hi. reflexivity.
+  - intros Hi H. apply Z.ltb_ge in Hi. rewrite Hi, H. reflexivity.
+  - intros l r Hi H Hb. apply Z.ltb_ge in Hi. rewrite Hi, H, rc_last_opt_snoc, Hb. reflexivity.
+  - intros l r Hi H Hb. apply Z.ltb_ge in Hi. rewrite Hi, H, rc_last_opt_snoc, Hb. reflexivity.
+Qed.
+
+Lemma rc_last_opt_inv {A} (l : list A) r : last_opt l = Some r -> exists l0, l = (l0 ++ [r])%list.
+Proof.
+  induction l as [|x l IH]; [discriminate|]. cbn [last_opt]. destruct l as [|y t].
+  - intro H. injection H as <-. exists []. reflexivity.
+  - intro H. destruct (IH H) as [l0 E]. exists (x :: l0). rewrite E. reflexivity.
+Qed.
+
+(** every outcome of [set_diti]: a raising call appends nothing; an accepted call had a non-negative index,
+    was made at the start or after a break, and appends exactly the S record *)
+Lemma rc_set_diti_cases w i w' e : set_diti w i = (w', e) ->
+  match e with
+  | Some _ => w' = w
+  | None => (0 <= i)%Z /\ w' = emit w [RS i] /\
+            (w_recs w = [] \/ exists l r, w_recs w = (l ++ [r])%list /\ is_break_like r = true)
+  end.
+Proof.
+  unfold set_diti. intro H. destruct (i <? 0)%Z eqn:Hi; [injection H as <- <-; reflexivity|].
+  apply Z.ltb_ge in Hi.
+  destruct (last_opt (w_recs w)) as [r|] eqn:L.
+  - destruct (is_break_like r) eqn:B; injection H as <- <-; [|reflexivity].
+    split; [exact Hi|]. split; [reflexivity|]. right.
+    destruct (rc_last_opt_inv _ _ L) as [l0 E]. exists l0, r. split; assumption.
+  - injection H as <- <-. split; [exact Hi|]. split; [reflexivity|]. left.
+    destruct (w_recs w) as [|x l]; [reflexivity|]. exfalso.
+    assert (Hx : exists y, last_opt (x :: l) = Some y).
+    { clear L. revert x. induction l as [|z t IH]; intro x; [exists x; reflexivity|].
+      destruct (IH z) as [y Hy]. exists y. exact Hy. }
+    destruct Hx as [y Hy]. rewrite Hy in L. discriminate L.
 Qed.
 
 (** which records count as a break *)
@@ -1349,6 +1383,7 @@ Proof.
   destruct (check_position (rd_src_end a)) as [se|e2] eqn:P2; [|left; eexists; reflexivity].
   destruct (check_position (rd_dst_start a)) as [ds|e3] eqn:P3; [|left; eexists; reflexivity].
   destruct (check_position (rd_dst_end a)) as [de|e4] eqn:P4; [|left; eexists; reflexivity].
+  destruct ((rd_diti_reuse a <? 0) || (rd_multi_disp a <? 0))%Z eqn:C; [left; eexists; reflexivity|].
   fold (rc_excl a).
   destruct (existsb (fun x => negb ((ds <=? x) && (x <=? de))%Z) (rc_excl a)) eqn:X;
     [left; eexists; reflexivity|].
@@ -1423,6 +1458,40 @@ Qed.
 
 Local Close Scope Q_scope.
 
+(** an accepted call has non-negative DiTi-reuse and multi-dispense counts ... *)
+Lemma rc_reagent_counts w a w' : reagent_distribution w a = (w', None) ->
+  (0 <= rd_diti_reuse a)%Z /\ (0 <= rd_multi_disp a)%Z.
+Proof.
+  unfold reagent_distribution. intro H.
+  destruct (if String.eqb (rd_direction a) "left_to_right" then Some false
+            else if String.eqb (rd_direction a) "right_to_left" then Some true else None) as [d|];
+    [|discriminate H].
+  destruct (check_position (rd_src_start a)) as [ss|e1]; [|discriminate H].
+  destruct (check_position (rd_src_end a)) as [se|e2]; [|discriminate H].
+  destruct (check_position (rd_dst_start a)) as [ds|e3]; [|discriminate H].
+  destruct (check_position (rd_dst_end a)) as [de|e4]; [|discriminate H].
+  destruct ((rd_diti_reuse a <? 0) || (rd_multi_disp a <? 0))%Z eqn:C; [discriminate H|].
+  apply orb_false_iff in C. destruct C as [C1 C2]. apply Z.ltb_ge in C1, C2. split; assumption.
+Qed.
+
+(** ... and a call with a negative count is a ValueError unless the direction or one of the four positions,
+    which are checked before, is already one; in every case it is a ValueError and appends nothing *)
+Lemma rc_reagent_reject_counts w a : (rd_diti_reuse a < 0 \/ rd_multi_disp a < 0)%Z ->
+  reagent_distribution w a = (w, Some EReject).
+Proof.
+  intro Hneg. unfold reagent_distribution.
+  destruct (if String.eqb (rd_direction a) "left_to_right" then Some false
+            else if String.eqb (rd_direction a) "right_to_left" then Some true else None) as [d|];
+    [|reflexivity].
+  destruct (check_position (rd_src_start a)) as [ss|e1]; [|reflexivity].
+  destruct (check_position (rd_src_end a)) as [se|e2]; [|reflexivity].
+  destruct (check_position (rd_dst_start a)) as [ds|e3]; [|reflexivity].
+  destruct (check_position (rd_dst_end a)) as [de|e4]; [|reflexivity].
+  assert (C : ((rd_diti_reuse a <? 0) || (rd_multi_disp a <? 0))%Z = true).
+  { apply orb_true_iff. destruct Hneg as [Hn|Hn]; [left|right]; apply Z.ltb_lt; exact Hn. }
+  rewrite C. reflexivity.
+Qed.
+
 (** what an accepted call appends *)
 Lemma rc_reagent_ok w a w' : reagent_distribution w a = (w', None) ->
   exists f, w' = emit w [RR f] /\ w_recs w' = (w_recs w ++ [RR f])%list /\
@@ -1457,9 +1526,12 @@ Lemma rc_reagent_ok w a w' : reagent_distribution w a = (w', None) ->
     (0 <= pynum_q (r_volume f))%Q /\ (pynum_q (r_volume f) <= 7158278)%Q /\
     (pynum_q (r_volume f) <= w_max w)%Q /\
     Forall (fun x => (r_dst_start f <= x <= r_dst_end f)%Z) (r_exclude f) /\
-    Forall (fun x => (0 <= x)%Z) (r_exclude f).
+    Forall (fun x => (0 <= x)%Z) (r_exclude f) /\
+    (* the two counts are validated (since /repo commit 26768d9, F21) *)
+    (0 <= r_diti_reuse f)%Z /\ (0 <= r_multi_disp f)%Z.
 Proof.
-  intro H. destruct (rc_reagent_cases w a) as [[e' E]|[d [ss [se [ds [de [sl [sid [sty [dl [did [dty [lc [v E]]]]]]]]]]]]]].
+  intro H. destruct (rc_reagent_counts w a w' H) as [Hc1 Hc2].
+  destruct (rc_reagent_cases w a) as [[e' E]|[d [ss [se [ds [de [sl [sid [sty [dl [did [dty [lc [v E]]]]]]]]]]]]]].
   { rewrite E in H. discriminate H. }
   destruct E as [D [P1 [P2 [P3 [P4 [X [T1 [T2 [T3 [T4 [T5 [T6 [T7 [V E]]]]]]]]]]]]]].
   rewrite E in H. injection H as H. subst w'.
@@ -1497,25 +1569,22 @@ Proof.
   split; [repeat split; auto|].
   repeat (split; [assumption|]).
   split; [rewrite Hq; exact V2|]. split; [rewrite Hq; exact V3|]. split; [rewrite Hq; exact V4|].
-  split.
-  - apply rc_sort_Z_Forall. exact X.
-  - apply rc_sort_Z_Forall. rewrite Forall_forall in *. intros x Hx. specialize (X x Hx). lia.
+  split; [apply rc_sort_Z_Forall; exact X|].
+  split; [apply rc_sort_Z_Forall; rewrite Forall_forall in *; intros x Hx; specialize (X x Hx); lia|].
+  split; [exact Hc1|].
+  destruct (Qlt_le_dec (w_max w) (inject_Z (rd_multi_disp a) * v)) as [L|L].
+  - destruct (M2 L) as [_ [_ [_ [_ N]]]]. lia.
+  - rewrite (M1 L). exact Hc2.
 Qed.
 
-(** an accepted record parses back, provided the two counts (which the method does not check) are not negative *)
+(** an accepted record parses back *)
 Lemma rc_reagent_roundtrip w a w' : reagent_distribution w a = (w', None) ->
-  (0 <= rd_diti_reuse a)%Z -> (0 <= rd_multi_disp a)%Z ->
   exists f, w_recs w' = (w_recs w ++ [RR f])%list /\ rc_r_nosep f /\ rc_r_nonneg f /\
             parse_record (render (RR f)) = Some (PR (rc_prd_of f)).
 Proof.
-  intros H Hr Hm. destruct (rc_reagent_ok w a w' H) as [f Hf]. exists f.
-  destruct Hf as [_ [Hrec [_ [_ [_ [_ [_ [_ [_ [_ [_ [_ [_ [_ [Hru [_ [_ [M1 [M2 [Hs [_ [P1 [P2 [P3 [P4 [V0 [_ [VM [_ HX]]]]]]]]]]]]]]]]]]]]]]]]]]]]].
-  assert (Hn : rc_r_nonneg f).
-  { unfold rc_r_nonneg. repeat (split; [assumption|]). split; [rewrite Hru; exact Hr|].
-    split; [|exact HX].
-    destruct (Qlt_le_dec (w_max w) (inject_Z (rd_multi_disp a) * pynum_q (r_volume f))) as [L|L].
-    - destruct (M2 L) as [_ [_ [_ [_ N]]]]. lia.
-    - rewrite (M1 L). exact Hm. }
+  intro H. destruct (rc_reagent_ok w a w' H) as [f Hf]. exists f.
+  destruct Hf as [_ [Hrec [_ [_ [_ [_ [_ [_ [_ [_ [_ [_ [_ [_ [_ [_ [_ [_ [_ [Hs [_ [P1 [P2 [P3 [P4 [_ [_ [_ [_ [HX [C1 C2]]]]]]]]]]]]]]]]]]]]]]]]]]]]]]].
+  assert (Hn : rc_r_nonneg f) by (unfold rc_r_nonneg; repeat (split; [assumption|]); exact HX).
   split; [exact Hrec|]. split; [exact Hs|]. split; [exact Hn|].
   apply rc_roundtrip_R_rec; assumption.
 Qed.
@@ -1681,7 +1750,6 @@ Proof.
 Qed.
 
 Lemma rc_reagent_end_to_end w a w' : reagent_distribution w a = (w', None) ->
-  (0 <= rd_diti_reuse a)%Z -> (0 <= rd_multi_disp a)%Z ->
   exists f p,
     w_recs w' = (w_recs w ++ [RR f])%list /\ parse_record (render (RR f)) = Some (PR p) /\
     rd_src_label a = PStr (pr_src_label p) /\ rd_src_id a = PStr (pr_src_id p) /\
@@ -1697,7 +1765,7 @@ Lemma rc_reagent_end_to_end w a w' : reagent_distribution w a = (w', None) ->
     rd_direction a = (if pr_direction p then "right_to_left" else "left_to_right") /\
     map Z.of_N (pr_exclude p) = sort_Z (rc_excl a).
 Proof.
-  intros H Hr Hm. destruct (rc_reagent_roundtrip w a w' H Hr Hm) as [f [Hrec [Hs [Hn Hp]]]].
+  intro H. destruct (rc_reagent_roundtrip w a w' H) as [f [Hrec [Hs [Hn Hp]]]].
   destruct (rc_reagent_ok w a w' H) as [f' Hf].
   destruct Hf as [_ [Hrec' Hf]].
   assert (Ef : f' = f).
@@ -1711,4 +1779,147 @@ Proof.
     pr_direction pr_exclude].
   rewrite !Z2N.id by assumption. rewrite rc_of_to_N_list by exact PX.
   repeat (split; [first [assumption|reflexivity]|]). exact He.
+Qed.
+
+(** one line: an accepted call writes a character that is not a digit, ".", "-", ";", "R" only if a text
+    argument contains it *)
+Lemma rc_reagent_oneline w a w' c : reagent_distribution w a = (w', None) ->
+  is_digit c = false -> c <> "."%char -> c <> "-"%char -> c <> ";"%char -> c <> "R"%char ->
+  (forall t s, In t [rd_src_label a; rd_src_id a; rd_src_type a; rd_dst_label a; rd_dst_id a; rd_dst_type a;
+                     rd_liquid_class a] -> t = PStr s -> contains_char c s = false) ->
+  exists f, w_recs w' = (w_recs w ++ [RR f])%list /\ contains_char c (render (RR f)) = false.
+Proof.
+  intros H Hd Hp Hm Hs HR Ht. destruct (rc_reagent_roundtrip w a w' H) as [f [Hrec [_ [Hn _]]]].
+  destruct (rc_reagent_ok w a w' H) as [f' Hf].
+  destruct Hf as [_ [Hrec' Hf]].
+  assert (Ef : f' = f).
+  { rewrite Hrec in Hrec'. apply app_inv_head in Hrec'. injection Hrec' as E. symmetry. exact E. }
+  subst f'.
+  destruct Hf as [A1 [A2 [A3 [A4 [A5 [A6 [A7 _]]]]]]].
+  exists f. split; [exact Hrec|].
+  apply rc_oneline_R; try assumption.
+  - apply (Ht (rd_src_label a)); [cbn [In]; tauto|exact A1].
+  - apply (Ht (rd_src_id a)); [cbn [In]; tauto|exact A2].
+  - apply (Ht (rd_src_type a)); [cbn [In]; tauto|exact A3].
+  - apply (Ht (rd_dst_label a)); [cbn [In]; tauto|exact A4].
+  - apply (Ht (rd_dst_id a)); [cbn [In]; tauto|exact A5].
+  - apply (Ht (rd_dst_type a)); [cbn [In]; tauto|exact A6].
+  - apply (Ht (rd_liquid_class a)); [cbn [In]; tauto|exact A7].
+Qed.
+
+(** set_diti: method call -> S record -> text -> parser -> the index given *)
+Lemma rc_set_diti_end_to_end w i w' : set_diti w i = (w', None) ->
+  exists n, w' = emit w [RS i] /\ w_recs w' = (w_recs w ++ [RS i])%list /\
+            parse_record (render (RS i)) = Some (PS n) /\ Z.of_N n = i /\
+            split_on ";"%char (render (RS i)) = ["S"; decN n].
+Proof.
+  intro H. destruct (rc_set_diti_cases _ _ _ _ H) as [Hi [-> _]].
+  exists (Z.to_N i). split; [reflexivity|]. split; [reflexivity|].
+  split; [apply rc_roundtrip_S; exact Hi|]. split; [apply Z2N.id; exact Hi|].
+  apply (proj2 (proj2 rc_fields_simple)). exact Hi.
+Qed.
+
+(** negative DiTi index / DiTi reuse / multi-dispense counts: ValueError, nothing appended *)
+Lemma rc_reject_negative_counts w :
+  (forall i, (i < 0)%Z -> set_diti w i = (w, Some EReject)) /\
+  (forall a, (rd_diti_reuse a < 0 \/ rd_multi_disp a < 0)%Z ->
+     reagent_distribution w a = (w, Some EReject)).
+Proof.
+  split; [intros i Hi; exact (proj1 (rc_set_diti w i) Hi)|intros a Ha; exact (rc_reagent_reject_counts w a Ha)].
+Qed.
+
+(* ------------------------------------------------------------------------------------------ *)
+(** * Grammar: every record appended by the record-level methods is read by the independent parser *)
+
+Definition rc_parsable (r : srec) : Prop := parse_record (render r) <> None.
+
+(** the call appended the records [rs] (none if it raised), all inside the grammar *)
+Definition rc_appends_parsable (w w' : wstate) : Prop :=
+  exists rs, w_recs w' = (w_recs w ++ rs)%list /\ Forall rc_parsable rs.
+
+Lemma rc_appends_none w : rc_appends_parsable w w.
+Proof. exists []. split; [symmetry; apply app_nil_r|constructor]. Qed.
+
+Lemma rc_appends_one w r : rc_parsable r -> rc_appends_parsable w (emit w [r]).
+Proof. intro H. exists [r]. split; [reflexivity|]. constructor; [exact H|constructor]. Qed.
+
+Lemma rc_grammar_set_diti w i w' e : set_diti w i = (w', e) -> rc_appends_parsable w w'.
+Proof.
+  intro H. apply rc_set_diti_cases in H. destruct e as [e|].
+  - subst w'. apply rc_appends_none.
+  - destruct H as [Hi [-> _]]. apply rc_appends_one. unfold rc_parsable.
+    rewrite (rc_roundtrip_S i Hi). discriminate.
+Qed.
+
+Lemma rc_grammar_reagent w a w' e : reagent_distribution w a = (w', e) -> rc_appends_parsable w w'.
+Proof.
+  intro H. destruct e as [e|].
+  - rewrite (rc_reagent_err _ _ _ _ H). apply rc_appends_none.
+  - destruct (rc_reagent_roundtrip _ _ _ H) as [f [Hrec [_ [_ Hp]]]].
+    exists [RR f]. split; [exact Hrec|]. constructor; [|constructor].
+    unfold rc_parsable. rewrite Hp. discriminate.
+Qed.
+
+Lemma rc_grammar_comment w c w' e : comment w c = (w', e) -> rc_appends_parsable w w'.
+Proof.
+  unfold comment. intro H. destruct c as [s|]; [|injection H as <- <-; apply rc_appends_none].
+  destruct (String.eqb s ""); [injection H as <- <-; apply rc_appends_none|].
+  destruct (contains_char semi s) eqn:Hs; injection H as <- <-; [apply rc_appends_none|].
+  exists (map RC (comment_lines s)). split; [reflexivity|].
+  apply Forall_forall. intros r Hr. apply in_map_iff in Hr. destruct Hr as [t [<- Ht]].
+  destruct (rc_comment_lines_spec s t Ht) as [_ [_ [_ H4]]].
+  unfold rc_parsable. rewrite (rc_roundtrip_C t (H4 _ Hs)). discriminate.
+Qed.
+
+Lemma rc_grammar_wash w s w' e : wash w s = (w', e) -> rc_appends_parsable w w'.
+Proof.
+  unfold wash. intro H. destruct (w_diti w).
+  - injection H as <- <-. apply rc_appends_one. unfold rc_parsable. vm_compute. discriminate.
+  - destruct s as [z| | | |]; try (injection H as <- <-; apply rc_appends_none).
+    destruct ((1 <=? z) && (z <=? 4))%Z eqn:E; injection H as <- <-; [|apply rc_appends_none].
+    apply andb_true_iff in E. destruct E as [E1 E2]. apply Z.leb_le in E1, E2.
+    apply rc_appends_one. unfold rc_parsable. rewrite rc_roundtrip_Wn by lia. discriminate.
+Qed.
+
+Lemma rc_grammar_ad w a w' e :
+  (aspirate_well w a = (w', e) -> rc_appends_parsable w w') /\
+  (dispense_well w a = (w', e) -> rc_appends_parsable w w').
+Proof.
+  split; intro H; [apply rc_aspirate_well in H|apply rc_dispense_well in H]; destruct e as [e|].
+  - destruct H as [-> _]. apply rc_appends_none.
+  - destruct H as [f [Hf [-> _]]]. apply rc_appends_one. unfold rc_parsable.
+    rewrite (proj1 (rc_prepare_roundtrip _ _ _ Hf)). discriminate.
+  - destruct H as [-> _]. apply rc_appends_none.
+  - destruct H as [f [Hf [-> _]]]. apply rc_appends_one. unfold rc_parsable.
+    rewrite (proj2 (rc_prepare_roundtrip _ _ _ Hf)). discriminate.
+Qed.
+
+Lemma rc_grammar w w' e :
+  (forall i, set_diti w i = (w', e) -> rc_appends_parsable w w') /\
+  (forall a, reagent_distribution w a = (w', e) -> rc_appends_parsable w w') /\
+  (forall c, comment w c = (w', e) -> rc_appends_parsable w w') /\
+  (forall s, wash w s = (w', e) -> rc_appends_parsable w w') /\
+  (decontaminate w = (w', e) -> rc_appends_parsable w w') /\
+  (flush w = (w', e) -> rc_appends_parsable w w') /\
+  (commit w = (w', e) -> rc_appends_parsable w w') /\
+  (forall a, aspirate_well w a = (w', e) -> rc_appends_parsable w w') /\
+  (forall a, dispense_well w a = (w', e) -> rc_appends_parsable w w').
+Proof.
+  split; [intro i; apply rc_grammar_set_diti|]. split; [intro a; apply rc_grammar_reagent|].
+  split; [intro c; apply rc_grammar_comment|]. split; [intro s; apply rc_grammar_wash|].
+  split.
+  { unfold decontaminate. intro H. destruct (w_diti w); injection H as <- <-;
+      [apply rc_appends_none|apply rc_appends_one; unfold rc_parsable; vm_compute; discriminate]. }
+  split; [intro H; injection H as <- <-; apply rc_appends_one; unfold rc_parsable; vm_compute; discriminate|].
+  split; [intro H; injection H as <- <-; apply rc_appends_one; unfold rc_parsable; vm_compute; discriminate|].
+  split; intro a; apply rc_grammar_ad.
+Qed.
+
+(** the hypotheses of the record-level lemmas hold of every record [reagent_distribution] appends *)
+Lemma rc_reagent_representable w a w' : reagent_distribution w a = (w', None) ->
+  exists f, w_recs w' = (w_recs w ++ [RR f])%list /\ rc_r_nosep f /\ rc_r_nonneg f /\
+            exists p, parse_record (render (RR f)) = Some (PR p).
+Proof.
+  intro H. destruct (rc_reagent_roundtrip w a w' H) as [f [A [B [C D]]]].
+  exists f. split; [exact A|]. split; [exact B|]. split; [exact C|]. eexists. exact D.
 Qed.
